@@ -473,6 +473,8 @@ func (ex *Exec) decide(from *Thread) *alt {
 			c = a.env.cost
 		} else if curEnabled && a.t != from {
 			c = 1
+		} else if i > 0 && ex.x != nil && ex.x.EveryDeviationCosts {
+			c = 1
 		}
 		_ = i
 		_ = nThr
